@@ -6298,7 +6298,7 @@ func (t *Terminal) vmove(o int, allowCycle bool) {
 }
 
 func (t *Terminal) vset(o int) bool {
-	t.cy = util.Constrain(o, 0, t.merger.Length()-1)
+	t.cy = util.Constrain(o, 0, util.Max(0, t.merger.Length()-1))
 	return t.cy == o
 }
 
